@@ -52,19 +52,33 @@ class C02(Check):
         return {"ws": ws}
 
     def execute(self, scn: dict) -> Outcome:
+        from .c06 import permuted_revision
+        out = Outcome()
+        self._run(scn["ws"], out)
+        ws2 = permuted_revision(scn["ws"], 12345)
+        if ws2 is not None:
+            try:
+                W.validate_ws(ws2)
+            except InvalidScenario:
+                ws2 = None
+        if ws2 is not None:
+            out.stats["second_revision_in_same_process"] += 1
+            self._run(ws2, out)
+        return out
+
+    def _run(self, ws: dict, out: Outcome) -> Outcome:
         from ..worlds.wire import Node, NodeError
         from ..worlds import realcanon
         import pydsdl
-        out = Outcome()
-        uni0 = W.validate_ws(scn["ws"])
+        uni0 = W.validate_ws(ws)
         try:
-            node = Node(scn["ws"])
+            node = Node(ws)
         except NodeError as ex:
             out.fail("C02.lenset", "valid namespace rejected by the front end: %s" % ex, "frontend-rejected")
             return out
         try:
             res = node.uni.res
-            m = realcanon.Matcher(res, explicit_limit=20000)
+            m = realcanon.Matcher(res, explicit_limit=3000)
             for k, t in node.types.items():
                 m.message(k, k, t, docs=False)
             for b in m.bad[:5]:
@@ -84,12 +98,12 @@ class C02(Check):
                 out.shapes.append(digest([sorted(x for x in feats), depth, boundary]))
                 out.stats["types"] += 1
                 has_delimited = any(not res.sec(x, 0).sealed for x in node.uni.closure([key]) if x != key and not T.is_service(node.uni.defs[x]))
-                if not has_delimited and V.count_sec_shapes(sec, 401) <= 400 and sec.inner.work() <= 20000:
+                if not has_delimited and V.count_sec_shapes(sec, 401) <= 400 and sec.inner.work() <= 3000 and realcanon._cheap_for_sut(sec.inner):
                     lengths = set()
                     for v in V.all_sec_shapes(sec):
                         lengths.add(8 * len(pydsdl.serialize(real, v)))
-                    want = set(real.inner_type.bit_length_set)
-                    if lengths != want:
+                    want = realcanon.safe_expand(real.inner_type.bit_length_set)
+                    if want is not None and lengths != want:
                         out.fail("C02.observed", "%s[%d]: lengths actually produced %s, bit_length_set %s" % (key, si, sorted(lengths)[:20], sorted(want)[:20]), "observed")
                     out.stats["exhaustive_types"] += 1
             out.obs.append([len(node.types), len(m.bad)])
